@@ -58,6 +58,9 @@ def generate(rng, tier):
         for h in sorted(hs):
             v = rng.choice([500.5, 1000.0, 2000.0])
             a = rng.choice([1.0, 1000.0, 4000.0, math.inf])
+            # all three regimes of the climb profile: h below one speed ramp, between one and two, above two
+            if h > 0 and rng.random() < 0.4:
+                a = b2f(f2b(v * v / (h * rng.choice([0.3, 0.6, 0.75, 0.9, 0.99, 1.0, 1.01, 1.5, 2.0, 2.01, 3.0]))))
             qs.append(f"K{fb(h)},{fb(v)},{fb(a)}")
         out.append((f"stats {hx(skyb(blk, rng))} " + " ".join(qs), True))
     # cubic climbs that start level or dipping and then rise steeply through the target (derivative changes sign
